@@ -84,11 +84,77 @@ async def _run(ans, mixers_present, provides, versions=False):
             "loaded": bool(is_loaded)}
 
 
+RESPONSE_CODE = {57: 0xB9, 85: 0xD5, 49: 0xB1, 61: 0xBD, 54: 0xB6, 50: 0xB2, 92: 0xDC, 58: 0xBA}
+
+
+async def _run_proto(ans, mixers_present, provides, delay):
+    """The same set-up, started the way it is in use: by the real AsyncProtocol when the first frame from the controller arrives.
+    The controller sends a program-version request first and the sensor data only `delay` seconds later; it keeps the line busy
+    (a frame for another device every 0.25 s, so that queued requests are written and the read timeout never fires) and answers
+    set-up kind k on attempt a_k by a real response frame on the wire."""
+    from pyplumio.protocol import AsyncProtocol
+    from harness import proto_impl as PI
+    loop = asyncio.get_running_loop()
+    proto = AsyncProtocol(consumers_count=3)
+    reader = asyncio.StreamReader()
+    writer = PI.FakeWriter()
+    proto.connection_established(reader, writer)
+    await PI.settle()
+    sensor = _payload("messages/sensor_data.json", "short_sensor_data_without_thermostats")
+    rest = sensor[1 + 3 * sensor[0]:]
+    resp = responses(mixers_present)
+    counts, seen = {}, [0]
+    idle = G.enc(0x31, 0x45, 0x56, 0, 5, b"")
+
+    def answer_new_requests():
+        while seen[0] < len(writer.frames):
+            b = writer.frames[seen[0]]
+            seen[0] += 1
+            code = b[7]
+            if b[3] != 0x45 or code not in resp:
+                continue
+            counts[code] = counts.get(code, 0) + 1
+            if ans.get(code) is not None and ans[code] == counts[code]:
+                reader.feed_data(G.enc(RESPONSE_CODE[code], 0x56, 0x45, 48, 5, resp[code][1]))
+
+    async def line():
+        while True:
+            answer_new_requests()
+            reader.feed_data(idle)
+            await asyncio.sleep(0.25)
+
+    ctl = asyncio.ensure_future(line())
+    reader.feed_data(G.enc(0x40, 0x56, 0x45, 48, 5, b""))         # first contact: the entry is created, set-up starts and waits for sensor data
+    await asyncio.sleep(delay)
+    t0 = loop.time()
+    reader.feed_data(G.enc(0x35, 0x56, 0x45, 48, 5, b"\x00" + rest))
+    dev = None
+    for _ in range(800):
+        await asyncio.sleep(0.25)
+        dev = proto.data.get("ecomax")
+        if dev is not None and dev.data.get("loaded"):
+            break
+    loaded = loop.time() - t0
+    setup_running = any(t.get_name().startswith("device_setup_task") and not t.done() for t in proto.tasks) or \
+        (dev is not None and any("async_setup" in repr(t.get_coro()) and not t.done() for t in dev.tasks))
+    errors = [int(e) for e in dev.data.get("frame_errors", [])] if dev is not None else []
+    data = [code for code, name in provides if dev is not None and name in dev.data]
+    is_loaded = bool(dev is not None and dev.data.get("loaded"))
+    ctl.cancel()
+    await asyncio.gather(ctl, return_exceptions=True)
+    try:
+        await asyncio.wait_for(proto.shutdown(), timeout=100)
+    except asyncio.TimeoutError:
+        pass
+    return {"errors": errors, "loaded_s": loaded, "tx": [[code, counts.get(code, 0)] for code, _ in provides], "data": data,
+            "loaded": is_loaded, "setup_running": setup_running}
+
+
 class C16(Prop):
     id = "C16"
     prop_file = "Props/C16.v"
     rule = ("scripted controller under the virtual-time loop answers set-up kind k with a real captured response frame on attempt a_k in "
-            "{1,2,3,never}: quick = all 2^8 subsets answered on attempt 1 + random full patterns, with and without mixers; thorough = more of "
+            "{1,2,3,never}: quick = all 2^8 subsets answered on attempt 1 + random full patterns, with and without mixers, + `via-protocol`: the set-up started by the real AsyncProtocol at first contact with the sensor data arriving 0..60 s later and requests / answers travelling as frames on the wire; thorough = more of "
             "the 4^8 patterns; observed: loaded time, frame_errors, transmissions per kind, data present.  Non-trivial = at least one kind "
             "unanswered or answered late; distinct by (pattern, mixers).")
     assumptions = ["time is the loop's virtual clock: `within retries x timeout` is checked as loaded_time <= 9.0 virtual seconds",
@@ -107,6 +173,10 @@ class C16(Prop):
         for _ in range(300):
             cases.append({"kind": "pattern", "ans": [[k, rng.choice([[], [1], [2], [3]])] for k in kinds], "mixers": rng.random() < 0.5})
         # the sensor data that opens set-up carries its genuine frame-version table (several set-up kinds are announced in it)
+        # set-up started by the real protocol at first contact, the sensor data arriving only later (up to a minute)
+        for _ in range(40):
+            cases.append({"kind": "via-protocol", "ans": [[k, rng.choice([[], [], [1], [2], [3]])] for k in kinds],
+                          "mixers": rng.random() < 0.5, "delay": rng.choice([0, 2, 15, 22, 25, 28, 60])})
         for _ in range(150):
             cases.append({"kind": "pattern+versions", "ans": [[k, rng.choice([[], [], [1], [2], [3]])] for k in kinds],
                           "mixers": rng.random() < 0.5, "versions": True})
@@ -118,6 +188,10 @@ class C16(Prop):
     def run_impl(self, c):
         ans = {k: (a[0] if a else None) for k, a in c["ans"]}
         provides = [(k, n) for k, n in G.tables()["setup_frames"]]
+        if c["kind"] == "via-protocol":
+            r = vloop.run(_run_proto, ans, c["mixers"], provides, c["delay"])
+            # requests reach the wire with the latency of the line (<= 0.25 s) and so do the answers: the period an answer falls in
+            return [r["errors"], int((r["loaded_s"] + 1e-9) // 3.0), r["tx"], r["data"], r["loaded"]]
         r = vloop.run(_run, ans, c["mixers"], provides, c.get("versions", False))
         assert abs(r["loaded_s"] / 3.0 - round(r["loaded_s"] / 3.0)) < 1e-9, r
         return [r["errors"], int(round(r["loaded_s"] / 3.0)), r["tx"], r["data"], r["loaded"]]
